@@ -346,8 +346,9 @@ class PPO(RLAlgorithm):
         if not self.training and isinstance(self.action_space, spaces.Box):
             if self.actor.squash_output:
                 action = self.actor.scale_action(action)
-            else:
-                action = np.clip(action, self.action_space.low, self.action_space.high)
+
+            # NOTE: Scaling the squashed action can overshoot a bound by a rounding error
+            action = np.clip(action, self.action_space.low, self.action_space.high)
 
         return (
             action,
